@@ -25,12 +25,13 @@ dst = os.path.join(wt, pkgdir, "zz_seed_demo_test.go")
 res = {}
 sh("git checkout -- . ", wt)
 rc, out = sh("git apply --check %s && git apply %s" % (patch, patch), wt); res["apply"] = rc
-shutil.copy(demo, dst)
 rc, out = sh("go build ./...", os.path.join(wt, "teamserver")); res["build_with_patch"] = rc
 rc, out = sh("go test -vet=off -count=1 ./pkg/profile/yaotl/... 2>&1 | grep -c '^ok'", os.path.join(wt, "teamserver")); res["yaotl_ok_pkgs_with_patch"] = out.strip().splitlines()[-1] if out.strip() else ""
+shutil.copy(demo, dst)
 rc, out = sh("go test -vet=off -count=1 -run TestSeedDemo ./%s/" % pkgdir[len("teamserver/"):], os.path.join(wt, "teamserver")); res["demo_with_patch_rc"] = rc
-os.remove(dst); sh("git checkout -- .", wt); shutil.copy(demo, dst)
+os.remove(dst); sh("git checkout -- .", wt)
 rc, out = sh("go test -vet=off -count=1 ./pkg/profile/yaotl/... 2>&1 | grep -c '^ok'", os.path.join(wt, "teamserver")); res["yaotl_ok_pkgs_without_patch"] = out.strip().splitlines()[-1] if out.strip() else ""
+shutil.copy(demo, dst)
 rc, out = sh("go test -vet=off -count=1 -run TestSeedDemo ./%s/" % pkgdir[len("teamserver/"):], os.path.join(wt, "teamserver")); res["demo_without_patch_rc"] = rc
 os.remove(dst)
 confirmed = res["apply"] == 0 and res["build_with_patch"] == 0 and res["demo_with_patch_rc"] != 0 and res["demo_without_patch_rc"] == 0 and res["yaotl_ok_pkgs_with_patch"] == res["yaotl_ok_pkgs_without_patch"]
